@@ -16,7 +16,43 @@ K_ARP = {"unit": "arp", "inject": "elvis-core/src/protocols/arp/arp_parsing.rs",
 
 K_CHECKSUM = {"unit": "checksum", "inject": "elvis-core/src/protocols/utility.rs", "crate": "elvis-core"}
 
+K_TCB = {"unit": "tcb", "inject": "elvis-core/src/protocols/tcp/tcb.rs", "crate": "elvis-core"}
+
+TCB_NOTE = ("Trusted: Verus/Z3; Message imported by contract (verified in unit message), comparison primitives imported by contract (verified in unit modcmp); "
+            "ASSUMED specs: BinaryHeap (new/push/pop/peek), Duration arithmetic wrappers, mem::take/Default (derive(Default) on Message), VecDeque::{get,front,front_mut}, "
+            "core::{to,from}_be_bytes wrappers; declared rewrites listed in the evidence (generic Message::slice wrapper inlined, `mut self` builders, empty array iterator, Duration operators). ")
+
 PROPS = {
+    "C17": {
+        "units": ["tcb", "modcmp", "message"],
+        "kani": [K_TCB, K_TCPHDR],
+        "level": "proof",
+        "technique": "Verus contracts on the extracted tcb.rs functions (inductive per-call step over the TCB invariant), witnesses replayed on the real code",
+        "level_text": "Inductive step for arbitrary segments: for every TCB satisfying the invariant and every syntactically valid segment, Tcb::process_segment (the real 330-line function, all nine states, all 64 flag combinations, all sequence/ack/window values) does not panic (every assert!, unwrap, subtraction, cast and slice bound is a discharged obligation), preserves the invariant, never advances SND.NXT, takes the send window only from the peer's advertisement, is inert for segments outside the receive window (RFC 9293 Table 6 as an exact contract on is_seq_ok) and ignores segments with neither SYN nor RST in SYN-SENT.",
+        "level_note": TCB_NOTE + "Whole-history clause follows by induction over calls (each call is an arbitrary segment). See evidence for which API functions are under contract.",
+        "assumptions": ["segments are syntactically valid: text <= 65515 octets, data offset 5", "segment_arrives hands process_segment only segments not ahead of RCV.NXT (checked in its own contract when under contract)"],
+        "explanation": "TCP endpoint robustness as a per-call inductive step",
+    },
+    "C03": {
+        "units": ["tcb", "modcmp", "message"],
+        "kani": [K_TCPHDR],
+        "level": "proof",
+        "technique": "Verus contracts on the extracted tcb.rs functions: RFC 9293 Figure 5 transition relation as a postcondition of every state-changing function",
+        "level_text": "Every state-changing TCB function carries the postcondition that (old state, new state, control bits) is an edge (or a two-step edge a single segment can take) of the RFC 9293 state diagram; the TCB is released only by the final ACK in LAST-ACK or by a reset; acceptable text is delivered in ESTABLISHED / FIN-WAIT-1 / FIN-WAIT-2 as far as the buffer has room (data before a close is not lost).",
+        "level_note": TCB_NOTE + "NOT decided here: the two-endpoint clause (each side's RCV.NXT equals what the peer has sent), liveness of release under a fair network, Tcp::demux/open/listen session-table behaviour (DashMap/Arc<dyn>/tokio).",
+        "assumptions": ["segments are syntactically valid"],
+        "explanation": "connection state machine against RFC 9293 Figure 5",
+    },
+    "C01": {
+        "units": ["tcb", "modcmp", "message"],
+        "kani": [K_TCPHDR],
+        "level": "proof",
+        "technique": "Verus contracts on the extracted tcb.rs functions: per-call stream-continuity contract on the receive path",
+        "level_text": "Receive-side safety as a per-call contract on process_segment: bytes already buffered for the application are never altered; what is appended is exactly the part of the segment text that continues the stream at RCV.NXT; RCV.NXT advances by exactly that many octets (plus one for a consumed FIN); the buffer never exceeds the advertised window; acceptable in-order text is taken as far as there is room. By induction over calls the delivered stream is the concatenation of in-sequence segment texts.",
+        "level_note": TCB_NOTE + "NOT decided here: liveness (bounded retransmission rounds, both ends fall silent), the sender-side ghost-stream invariant (every emitted data segment is consistent with the submitted stream) unless the evidence lists Tcb::segments/send under contract with it, and the two-endpoint composition (IRS = peer ISS).",
+        "assumptions": ["segments are syntactically valid", "peer segments are consistent with the peer's stream (composition assumption)"],
+        "explanation": "TCP receive-path stream continuity",
+    },
     "C11": {
         "units": ["reasm", "message"],
         "level": "proof",
